@@ -96,6 +96,7 @@ class PartitionLog:
                     if seq != 0 and st is not None:
                         return 45, -1, -1
                     if st is None and seq != 0 and not self.cluster.allow_unknown_producer_seq:
+                        self.cluster.seq_errors.append((self.tp, pid, seq, 0))
                         return 45, -1, -1
                     st = {"epoch": epoch, "last": collections.deque(maxlen=5)}
                     self.producers[pid] = st
